@@ -382,6 +382,11 @@ impl StateMachine for MemSm {
                 "write snapshot: {e}"
             ))))
         })?;
+        // like the File / RocksDB state machines: the SM records the metadata of the snapshot it produced
+        *self.snap_meta.lock().unwrap() = Some(SnapshotMetadata {
+            last_included: Some(_last_included),
+            checksum: Bytes::from_static(b"memsm"),
+        });
         Ok(Bytes::from_static(b"memsm"))
     }
     fn save_hard_state(&self) -> R<()> {
